@@ -659,6 +659,11 @@ func (lit *LiteralReader) Size() int64 {
 
 func (lit *LiteralReader) Read(b []byte) (int, error) {
 	n, err := lit.r.Read(b)
+	if lit.dec != nil {
+		// The literal header ends with a CRLF, but the line continues after
+		// the literal data: the decoder isn't at the end of a line anymore
+		lit.dec.crlf = false
+	}
 	if err == io.EOF {
 		lit.cancel()
 	}
